@@ -68,6 +68,7 @@ impl Prop for C02 {
             queue: QueueCfg::Vec,
             controllers,
             tree,
+            plain488: false,
         };
         let mut t = base_trace("C02", seed, run, "history", cfg.clone());
         let tc = TreeCtx::new(&cfg.tree);
